@@ -53,6 +53,10 @@ class LeanFailure(Exception):
     pass
 
 
+class HarnessError(Exception):
+    """an exception inside a (sub-)case; carries the child's traceback text"""
+
+
 def _run(cmd, cwd=None, timeout=3600):
     p = subprocess.run(cmd, cwd=cwd, stdout=subprocess.PIPE, stderr=subprocess.STDOUT, text=True, timeout=timeout)
     return p.returncode, p.stdout
@@ -120,6 +124,8 @@ def lean_build_and_audit(prop, thorough=False):
             res["discharged"] += 1
     if res["obligations"] == 0:
         res["problems"].append({"kind": "no-theorems", "detail": f"namespace DtsVerif.{prop} is empty"})
+    if prop in TRANSLATED:
+        translated_obligations(prop, res)
     if thorough:
         t1 = time.time()
         mods = [f"DtsVerif.Props.{prop}"]
@@ -128,6 +134,76 @@ def lean_build_and_audit(prop, thorough=False):
         if rc != 0:
             res["problems"].append({"kind": "leanchecker", "detail": out.splitlines()[-10:]})
     return res
+
+
+# properties whose model is additionally tied to the source by the translator (harness/translate.py): the formulas of the
+# temperature / variance-propagation block are re-read from the current source, emitted as Lean, and proved equal to the model
+TRANSLATED = {"C04", "C05", "C06"}
+
+
+def translated_obligations(prop, res):
+    """generate Gen.lean from DTS_SRC, compile it (`gen = model` theorems), audit its axioms; results are added to `res`"""
+    import hashlib
+    import translate
+    t0 = time.time()
+    info = dict(source=str(Path(DTS_SRC) / "dtscalibration" / "dts_accessor.py"))
+    res["translator"] = info
+    try:
+        text, names = translate.translate(DTS_SRC)
+    except translate.Untranslatable as e:
+        info["status"] = "untranslatable"
+        res["problems"].append({"kind": "translation", "detail": f"source left the translated fragment: {e}"})
+        return
+    except (OSError, SyntaxError) as e:
+        info["status"] = "unreadable"
+        res["problems"].append({"kind": "translation", "detail": f"{type(e).__name__}: {e}"})
+        return
+    info["term_names"] = names
+    text += "\nopen DtsVerif in\n#audit_ns DtsVerif.Gen\n"
+    text = text.replace("import DtsVerif.Props.C06\n", "import DtsVerif.Props.C06\nimport DtsVerif.AuditCmd\n", 1)
+    olean = LEAN / ".lake" / "build" / "lib" / "lean" / "DtsVerif" / "Props" / "C06.olean"
+    stamp = str(olean.stat().st_mtime_ns) if olean.exists() else "none"
+    key = hashlib.sha256((text + stamp).encode()).hexdigest()[:24]
+    info["sha"] = key
+    work = VERIF / "harness" / ".work" / "gen"
+    work.mkdir(parents=True, exist_ok=True)
+    cache = work / f"{key}.out"
+    if cache.exists():
+        rc, out = 0, cache.read_text()
+        info["cached"] = True
+    else:
+        gf = work / f"Gen-{os.getpid()}.lean"
+        gf.write_text(text)
+        try:
+            rc, out = _run(["lake", "env", "lean", str(gf)], cwd=LEAN)
+        finally:
+            gf.unlink(missing_ok=True)
+        if rc == 0:
+            cache.write_text(out)
+    info["wall_s"] = round(time.time() - t0, 2)
+    if rc != 0:
+        errs = [l for l in out.splitlines() if "error" in l][:6]
+        info["status"] = "proof-failed"
+        res["problems"].append({"kind": "translation", "detail": ["the formulas in the source are no longer the model's (gen = model theorem fails)"] + errs})
+        return
+    n = 0
+    for line in out.splitlines():
+        m = re.search(r"AUDIT (\S+) ::(.*)$", line)
+        if not m:
+            continue
+        name, axs = m.group(1), m.group(2).split()
+        n += 1
+        res["obligations"] += 1
+        res["theorems"].append({"name": name, "axioms": axs, "generated": True})
+        bad = [a for a in axs if a not in ALLOWED_AXIOMS]
+        if bad:
+            res["problems"].append({"kind": "axiom", "theorem": name, "detail": bad})
+        else:
+            res["discharged"] += 1
+    info["status"] = "ok"
+    info["theorems"] = n
+    if n == 0:
+        res["problems"].append({"kind": "translation", "detail": "no generated theorem was audited"})
 
 
 class Driver:
@@ -312,7 +388,10 @@ def finish(ctx, lean, module, level="proof"):
         coverage=dict(
             obligations=lean["obligations"], discharged=lean["discharged"],
             checker_cmd=f"cd lean && lake build && lake env lean <audit DtsVerif.{ctx.prop}>" + (" && lake env leanchecker" if ctx.tier == "thorough" else ""),
-            trusted_base=TRUSTED + getattr(module, "TRUSTED_EXTRA", []),
+            trusted_base=TRUSTED + getattr(module, "TRUSTED_EXTRA", []) + (
+                ["translator harness/translate.py (atom table, assignment walk, Python ast): the temperature / variance-propagation "
+                 "formulas are re-read from the current source and proved equal to the model on this run"] if "translator" in lean else []),
+            translator=lean.get("translator"),
             theorems=lean["theorems"],
             evaluations=ctx.evals, distinct_nontrivial=len(ctx.sigs),
             rule=getattr(module, "RULE", ""),
@@ -352,12 +431,15 @@ def _child(payload):
     fn = getattr(importlib.import_module(modname), fname)
     ctx = Ctx(prop, tier, seed)
     ctx.rng = random.Random(seed * 7919 + k)
+    error = None
     try:
         fn(ctx, *args)
+    except Exception:   # noqa: BLE001  reported by the parent unless a property failure was already recorded
+        error = traceback.format_exc()[-2000:]
     finally:
         if ctx.drv is not None:
             ctx.drv.close()
-    return dict(evals=ctx.evals, traces=ctx.traces, sigs=list(ctx.sigs), samples=jsonable(ctx.samples), hist=ctx.hist,
+    return dict(error=error, evals=ctx.evals, traces=ctx.traces, sigs=list(ctx.sigs), samples=jsonable(ctx.samples), hist=ctx.hist,
                 mismatches=jsonable(ctx.mismatches), failures=jsonable(ctx.failures), notes=ctx.notes, skipped=ctx.skipped,
                 known={k_: dict(entry=v["entry"], n=v["n"], first=v["first"]) for k_, v in ctx.known_hits.items()})
 
@@ -367,6 +449,7 @@ def parallel_cases(ctx, fn, args_list, jobs=8):
     from concurrent.futures import ProcessPoolExecutor
     import multiprocessing as mp
     payloads = [(fn.__module__, fn.__name__, ctx.prop, ctx.tier, ctx.seed, k, a) for k, a in enumerate(args_list)]
+    errors = []
     with ProcessPoolExecutor(max_workers=jobs, mp_context=mp.get_context("spawn")) as ex:
         for r in ex.map(_child, payloads):
             ctx.evals += r["evals"]
@@ -384,3 +467,7 @@ def parallel_cases(ctx, fn, args_list, jobs=8):
             for k_, v in r["known"].items():
                 h = ctx.known_hits.setdefault(k_, dict(entry=v["entry"], n=0, first=v["first"]))
                 h["n"] += v["n"]
+            if r["error"]:
+                errors.append(r["error"])
+    if errors:
+        raise HarnessError(errors[0])
